@@ -875,6 +875,10 @@ func ruleInvokeShape(c *Ctx, rule string) {
 	if nsm := w.methodFn(a.Ch, "NewStream"); nsm != nil {
 		allInstrs(nsm, func(in ssa.Instruction) {
 			if call, ok := in.(*ssa.Call); ok && staticCallee(call) == a.NewStream {
+				if len(call.Call.Args) < 4 {
+					c.fail(rule, w.Short(nsm)+": flags from the StreamDesc in order", w.At(call), "the stream-creation function is not called with separate (client-streaming, server-streaming) arguments: unrecognised shape")
+					return
+				}
 				_, c1 := fieldChain(call.Call.Args[2])
 				_, c2 := fieldChain(call.Call.Args[3])
 				ok2 := len(c1) == 1 && c1[0] == "ClientStreams" && len(c2) == 1 && c2[0] == "ServerStreams"
